@@ -67,19 +67,27 @@ CLAIMED["C09"] = (
 )
 
 CLAIMED["C15"] = (
-    "access-path read-set analysis (cache key completeness), who-may-write inventories, effect analysis of shared cached results, path rule on the context manager",
+    "access-path read-set analysis (cache key completeness), who-may-write inventories, effect analysis of shared cached results, path rule on the "
+    "context manager; abstract interpretation of the cache-consulting operations with the caches themselves interpreted (cold vs warm evaluator)",
     "Static: everything the cached fuse plan depends on is shown to be hashed into its key (Reads subset of Covers, block values "
     "in neither), memoised hashes cannot go stale, no consumer mutates a cached result, memoised helpers read no re-assignable "
     "state, the default-mode context manager restores in a finally from a value saved before the overwrite, and module level "
     "mutable state and its writers equal a confirmed inventory. These are the history-dependence mechanisms visible in the code; "
-    "they hold for every history because they are facts about all paths.",
+    "they hold for every history because they are facts about all paths. Bounded (R15.6, evaluation): the checker's evaluator interprets the "
+    "fuse-plan table and the memoised index hash keys (hash of a key = canonical text of what pickling sees of it); for ~100 arrays X (Z2, U1; + Z2Z2, "
+    "U1U1, rank 4 thorough; abelian and fermionic; fused legs of equal and unequal sizes) and each of ~10-20 neighbours Z - X itself, a copy, its "
+    "conjugate, transpose, pre-fused forms, or an independently built array differing in the sectors present (incl. exactly one other sector "
+    "missing), one direction, the charge, one table's sizes, a fused leg's sub-index record, each also pre-fused - every cache-consulting "
+    "operation (fuse of leading / trailing / all axes in every strategy the source names, fuse + unfuse_all, fused-strategy contractions) gives "
+    "structurally the same result after the whole battery has run on X, X.conj(), X.transpose() and X pre-fused in the same evaluator as in a fresh one.",
     "No schedule or interleaving is explored: the thread clause is covered only structurally (shared-state inventory + C14's "
     "no-operand-writes). Assumes SHA-1/pickle keys do not collide and that pickling a bound method pickles its object.",
-    "DESIGN.md section 2, C15",
+    "DESIGN.md section 2 (C15) and section 27",
 )
 CLAIMED["C20"] = (
     "interprocedural provenance (def-use) analysis of allocation dtypes; cast inventory against a confirmed table with a local def-use "
-    "classification of int() arguments; abstract evaluation of the dtype / backend witnesses",
+    "classification of int() arguments; abstract evaluation of the dtype / backend witnesses; abstract evaluation of the operation battery with "
+    "charge labels marked as strongly typed integers (taint reaching block arithmetic)",
     "Static: every allocation of array data in the package receives its dtype from an existing block (like=<block> on the "
     "ar.do path, dtype=<block>.dtype, or a **kwargs dict whose dtype entry is traced to a block through parameters over all "
     "call sites); cast-like constructs occur only at confirmed sites (int() of a size, count or flag is recognised wherever it sits); "
@@ -88,9 +96,12 @@ CLAIMED["C20"] = (
     "This is where an element type can be lost by construction (zero blocks joining data, slice assignment into a default-dtype "
     "buffer). R20.4: no block-wise value operation is gated on the array-level dtype witness (which is read off ONE block; the blocks of "
     "an array can differ in element type after mixed arithmetic).",
-    "Does not decide type promotion inside backend arithmetic, nor the dtype of python-scalar results of empty contractions. "
+    "R20.5 (evaluation): the C01 battery (~900 operations quick) is evaluated on arrays whose charge labels are marked as numpy integers "
+    "(arithmetic on a marked integer stays marked; int(), comparisons, truth tests and lookups give plain values); no block token ever meets a "
+    "marked integer in * / + - ** - a numpy integer scalar is strongly typed and would widen float32 / complex64 blocks where the Python literal keeps them.",
+    "Does not decide type promotion between blocks inside backend arithmetic, nor the dtype of python-scalar results of empty contractions. "
     "Assumes autoray's like= injection on the ar.do path.",
-    "DESIGN.md section 2 (C20), sections 23 and 25",
+    "DESIGN.md section 2 (C20), sections 23, 25 and 27",
 )
 
 PARTIAL_NOTE = (" PARTIAL CLAIM: decides the named structural clauses (necessary conditions of the property) for all paths / call "
